@@ -47,6 +47,16 @@ impl Watcher {
 	) -> Result<Box<dyn notify::Watcher + Send>, CriticalError> {
 		use notify::{Config, Watcher as _};
 
+		#[cfg(watchexec_verif)]
+		let f = {
+			let mut f = f;
+			let handler: verif::Handler = Box::new(move |ev| f.handle_event(ev));
+			match verif::create(self, handler) {
+				Ok(watcher) => return watcher,
+				Err(handler) => handler,
+			}
+		};
+
 		match self {
 			Self::Native => {
 				notify::RecommendedWatcher::new(f, Config::default()).map(|w| Box::new(w) as _)
@@ -71,6 +81,41 @@ impl Watcher {
 				FsWatcherError::Create(err)
 			},
 		})
+	}
+}
+
+/// Verification hook: a process-global factory consulted before the real watcher constructors.
+#[cfg(watchexec_verif)]
+pub mod verif {
+	use std::sync::{Arc, RwLock};
+
+	use super::Watcher;
+	use crate::error::CriticalError;
+
+	/// The event callback the fs worker hands to the watcher.
+	pub type Handler = Box<dyn FnMut(notify::Result<notify::Event>) + Send>;
+
+	/// Builds the watcher for a kind; it may wrap a real one or record and fake everything.
+	pub type Factory = dyn Fn(Watcher, Handler) -> Result<Box<dyn notify::Watcher + Send>, CriticalError>
+		+ Send
+		+ Sync;
+
+	static FACTORY: RwLock<Option<Arc<Factory>>> = RwLock::new(None);
+
+	/// Install (or remove) the factory.
+	pub fn set_factory(factory: Option<Arc<Factory>>) {
+		*FACTORY.write().expect("verif factory lock poisoned") = factory;
+	}
+
+	pub(super) fn create(
+		kind: Watcher,
+		handler: Handler,
+	) -> Result<Result<Box<dyn notify::Watcher + Send>, CriticalError>, Handler> {
+		let factory = FACTORY.read().expect("verif factory lock poisoned").clone();
+		match factory {
+			Some(factory) => Ok(factory(kind, handler)),
+			None => Err(handler),
+		}
 	}
 }
 
